@@ -591,7 +591,11 @@ inline void ThreadPool::forceEnqueue(F&& f, moodycamel::ProducerToken* token) {
 template <typename F>
 DISPENSO_REQUIRES(OnceCallableFunc<F>)
 inline void ThreadPool::schedule(F&& f) {
-  if (shouldRunInline()) {
+  // Inline execution nests on the caller's stack; like ConcurrentTaskSet, only do it while the
+  // per-thread inline depth is below kMaxInlineDepth, otherwise queue (a task that schedules its
+  // successor, or a long continuation chain, would otherwise recurse once per task).
+  if (shouldRunInline() && detail::PerPoolPerThreadInfo::canInlineSchedule()) {
+    detail::InlineDepthGuard depthGuard;
     f();
   } else {
     schedule(std::forward<F>(f), ForceQueuingTag());
@@ -608,7 +612,11 @@ inline void ThreadPool::schedule(F&& f, ForceQueuingTag) {
 
 template <typename F>
 inline void ThreadPool::schedule(moodycamel::ProducerToken& token, F&& f) {
-  if (shouldRunInline()) {
+  // Inline execution nests on the caller's stack; like ConcurrentTaskSet, only do it while the
+  // per-thread inline depth is below kMaxInlineDepth, otherwise queue (a task that schedules its
+  // successor, or a long continuation chain, would otherwise recurse once per task).
+  if (shouldRunInline() && detail::PerPoolPerThreadInfo::canInlineSchedule()) {
+    detail::InlineDepthGuard depthGuard;
     f();
   } else {
     schedule(token, std::forward<F>(f), ForceQueuingTag());
@@ -623,7 +631,11 @@ inline void ThreadPool::schedule(moodycamel::ProducerToken& token, F&& f, ForceQ
 template <typename F>
 DISPENSO_REQUIRES(OnceCallableFunc<F>)
 inline void ThreadPool::schedulePlaced(F&& f) {
-  if (shouldRunInline()) {
+  // Inline execution nests on the caller's stack; like ConcurrentTaskSet, only do it while the
+  // per-thread inline depth is below kMaxInlineDepth, otherwise queue (a task that schedules its
+  // successor, or a long continuation chain, would otherwise recurse once per task).
+  if (shouldRunInline() && detail::PerPoolPerThreadInfo::canInlineSchedule()) {
+    detail::InlineDepthGuard depthGuard;
     f();
   } else {
     schedulePlaced(std::forward<F>(f), ForceQueuingTag());
@@ -640,7 +652,11 @@ inline void ThreadPool::schedulePlaced(F&& f, ForceQueuingTag) {
 
 template <typename F>
 inline void ThreadPool::schedulePlaced(moodycamel::ProducerToken& token, F&& f) {
-  if (shouldRunInline()) {
+  // Inline execution nests on the caller's stack; like ConcurrentTaskSet, only do it while the
+  // per-thread inline depth is below kMaxInlineDepth, otherwise queue (a task that schedules its
+  // successor, or a long continuation chain, would otherwise recurse once per task).
+  if (shouldRunInline() && detail::PerPoolPerThreadInfo::canInlineSchedule()) {
+    detail::InlineDepthGuard depthGuard;
     f();
   } else {
     schedulePlaced(token, std::forward<F>(f), ForceQueuingTag());
